@@ -260,17 +260,20 @@ ALL = [f"C{n:02d}" for n in range(1, 21)]
 ADDED = {
     "C01": " Sums over columns with empty cells are used as values; conditions may carry nocontrib.",
     "C02": " Every third terminal state is also replayed as a one-member named-paths group with collect_paths and collect_by_line.",
-    "C03": " Assignments from count(<something>), counters with increments of 0 or read from a cell, stacks popped while they hold equal values.",
+    "C03": " Assignments from count(<something>), counters with increments of 0 or read from a cell, stacks popped while they hold equal values. Assignments from cells carry notnone (an empty cell is a value).",
     "C04": " Verdict-report runs: csvpaths whose only variables are line-by-line reports of valid()/failed() around conditional fail(); error runs with fail(), skip() and error components; exceptions that escape a member's run loop in a group, against MC_ErrorPolicy's one-line behaviours.",
     "C05": " Error runs inside the run machine (Eval!Flush = ErrorPolicy!HandleN) with control functions, incl. errors raised under last() on a file that ends in a blank record; exceptions that escape a member's run loop in a named-paths run (handled under the member's policy).",
-    "C07": " collect() (the function) of a header a matched line need not have: the hand-over fails in every method at the same call.",
+    "C06": " The same csvpath as a member of a named-paths group next to a member that appends a header (all six methods) and in a later run on the same instance, its trace validated by the run machine.",
+    "C07": " collect() (the function) of a header a matched line need not have: the hand-over fails in every method at the same call. 30% of the cases run under return-mode: no-matches.",
     "C08": " Each member's collected data.csv in every collecting way equals its standalone lines.",
-    "C09": " Groups print to the default and to named printouts (compared section by section); early-failing members followed by erroring members; a non-final member that raises stop_all() under the member-major methods (under next_paths the later members are cancelled: no directory, no result, the run manifest is still completed and speaks about the members that ran).",
+    "C09": " Groups print to the default and to named printouts (compared section by section); early-failing members followed by erroring members; a non-final member that raises stop_all() under the member-major methods (under next_paths the later members are cancelled: no directory, no result, the run manifest is still completed and speaks about the members that ran). Every other group is run again at once on the same instance: a run directory of its own whose archive says what that run did.",
     "C10": " Histories with fast-forward (data-less) runs and with abandoned next_* generators; references asked by the instance that ran, one that ran earlier and one that never ran.",
-    "C12": " A csvpath without identity may occur more than once in a list; member texts contain empty lines.",
+    "C11": " NamedFiles!AddRace: a producer writes the source while it is being registered (the write injected just before / after the registration's copy); all histories of length 2 with a racing add.",
+    "C12": " A csvpath without identity may occur more than once in a list; member texts contain empty lines. Identities also sit in the outer comment below the csvpath.",
+    "C14": " An empty cell is among the values of y (a value, not None) in the subsets without increase/decrease/asbool.",
     "C15": " Every mode case is driven by collect() and by fast_forward(); SameRun 'silent': a bare CsvPath with and without print-mode: no-default is the same run, and silent.",
     "C17": " Literal twins (csvpaths that differ only inside a literal) parsed in sequence in one process; layout runs compare the hash-named variables too; an arbitrary-name qualifier keeps its case.",
-    "C18": " Abort points include line 0; aborts also under the shipped default policy (raise, collect, stop, fail, print); members that finished before the abort.",
+    "C18": " Abort points include line 0; aborts also under the shipped default policy (raise, collect, stop, fail, print); members that finished before the abort. A third of the member-major aborts come from an exception that escapes the member's run loop (collect(99) on the aborting line).",
     "C19": " Every process of a history has its own string-hash seed; jobs with generated variable names; files of one physical line.",
     "C20": " A member of the referenced group reads the group's variables mid-run; the last of several runs may collect nothing (a replay by reference then has nothing to read).",
 }
